@@ -679,6 +679,35 @@ def l7(ctx):
             ctx.check(ok, "separator-arithmetic-in-loop:%s:%d" % (C.fkey(b0), n), "%s computes len - 1 only while it iterates the (non-empty) collection" % C.short(b0.id),
                       "%s can underflow: %s — printing an empty value (the multi-pattern parsed from \"\", a node without syntax elements) panics with 'attempt to subtract with overflow' instead of producing text that parses back" % (C.short(b0.id), why),
                       where_of(b, bi))
+    # ... and the separator is written between elements, not after the last one only: where the loop index is compared with
+    # len - 1, text is written on the `index != len - 1` side and nothing on the other (a separator after the single / last element,
+    # or none between the others, does not parse back)
+    for b0 in crate.fns():
+        if not (b0.name == "fmt" and (b0.impl_trait or "").endswith("fmt::Display") and (b0.file or "").endswith("parse.rs")):
+            continue
+        b = mir.inline_view(crate, b0)
+        for lp in C.iterator_loops(b):
+            sb_, it, none_e, some_e, cs_ = lp
+            body = b.reach(some_e, avoid=none_e)
+            for sb in b.switch_blocks():
+                if sb not in body:
+                    continue
+                t = b.blocks[sb]["term"]
+                r = strip_role(b.role_of_operand(t["discr"]))
+                if not (isinstance(r, tuple) and r[0] == "bin" and r[1] in ("Ne", "Eq")):
+                    continue
+                sides = [strip_role(r[2]), strip_role(r[3])]
+                if not any(isinstance(x, tuple) and x[0] == "bin" and x[1].startswith("Sub") and role_mentions_call(x, "len") for sd in sides for x in role_walk(sd)):
+                    continue
+                zero = [("e", sb, v) for v, _ in t["cases"] if v == "0"]
+                other = [("e", sb, "otherwise")]
+                last_e, more_e = (zero, other) if r[1] == "Ne" else (other, zero)       # Ne is false (0) on the last element
+                def writes(edges):
+                    reg = b.reach(edges, avoid=[sb_])
+                    return [c for c in b.calls if c.bb in reg and c.callee and c.callee.name in ("write_fmt", "write_str", "write_char", "fmt") and not b.blocks[c.bb]["cleanup"]]
+                ctx.check(bool(writes(more_e)) and not writes(last_e), "separator-between-elements:" + C.fkey(b0), "%s writes the separator after every element but the last" % C.short(b0.id),
+                          "%s writes its separator on the wrong side of the `index != len - 1` test (text after the last element: %s, after the others: %s): the printed list does not parse back" % (C.short(b0.id), bool(writes(last_e)), bool(writes(more_e))),
+                          where_of(b, sb))
     # (no floor: a printer without any subtraction has nothing to underflow)
     ctx.info("checked subtractions in the printers: %d" % n)
     if n == 0:
